@@ -191,7 +191,8 @@ def check(spec, r):
     waiting = {}  # token -> amt (refused, not yet granted)
     ab_tokens = set()
     name_of = r['token_of']
-    ab_names = set(r['abandoned'])
+    # a stream only counts as abandoned once it really stopped (its read raised, or its reader vanished)
+    ab_names = {n for n in r['abandoned'] if n in r['raised']}
     refusals = {}
     for (t, amt, tok, what, retry) in cons:
         nm = name_of.get(tok)
@@ -225,7 +226,13 @@ def check(spec, r):
                 viol.append(V(f'O5: stream {nm} slept again after its transfer failed', sym='O5-slept-again', **mech0))
     if not r['ok']:
         viol.append(V('simulation did not finish: a stream thread never completed its reads (starved)', sym='starved', **mech0))
-    return viol, stats
+    # keep one witness per kind of violation in front (the runner keeps only the first few per case)
+    seen = set()
+    first, rest = [], []
+    for v in viol:
+        (first if v['mech']['sym'] not in seen else rest).append(v)
+        seen.add(v['mech']['sym'])
+    return first + rest, stats
 
 
 # --------------------------------------------------------------------- cases
